@@ -89,6 +89,9 @@ def judge_replay(chk, prop, beh, results, tag):
         stats["with_forget"] += "Forget" in ops
         stats["with_async_sink"] += r.get("async_sinks", 0) > 0
         stats["with_fallback"] += any(o in ("DropTL", "DropRT", "DropHandle") for o in ops)
+        stats["with_bystander_global"] = stats.get("with_bystander_global", 0) + (r.get("bystander_probes", 0) > 0)
+        stats["bystander_probes"] = stats.get("bystander_probes", 0) + r.get("bystander_probes", 0)
+        stats["drops_by_unwinding"] = stats.get("drops_by_unwinding", 0) + r.get("drops_by_unwinding", 0)
         chk.evaluations += 1
         chk.nontrivial.add(tag + ":" + json.dumps([[s["op"], s["t"], s["c"]] for s in b["steps"]]))
         for d in r.get("drift", []):
@@ -118,6 +121,17 @@ def run_R(chk, prop, tier):
     log(f"[tlc] GlobalSinkReplay/{cfg}: {len(beh)} routing histories ({rr.distinct} states, {rr.wall:.1f}s)")
     for i, b in enumerate(beh):
         b["id"] = i + 1
+    # every third history runs next to a second global_entry_sink! type (the bystander) that was set up, on the same
+    # threads and runtimes, by the routing operations of another history (up to its first Forget): the bystander's
+    # routing must stay what TLC computed for its own history whatever is done to the first global, and vice versa
+    brng = random.Random(chk.seed * 104729 + 3)
+    for b in beh:
+        if brng.random() < 0.34:
+            o = beh[brng.randrange(len(beh))]["steps"]
+            cut = next((k for k, s_ in enumerate(o) if s_["op"] == "Forget"), len(o))
+            k = brng.randint(1, max(1, cut)) if cut > 0 else 0
+            if k > 0:
+                b["bystander"] = o[:min(k, cut)]
     res = run_replay(chk, beh, "probe")
     judge_replay(chk, prop, beh, res, "probe")
     chk.extra["exhaustive_histories"] = len(beh)
@@ -218,6 +232,11 @@ def gen_races(rng, n):
                     "ctls": ctls, "permille": rng.choice([0, 200, 600, 900]), "max_us": rng.choice([50, 200, 600]),
                     "flush_us": rng.choice([50, 1000, 20000]), "slow_us": rng.choice([0, 0, 20, 100]),
                     "seed": rng.randrange(1 << 30)})
+    # the scope that owns an attach handle is left normally or (1 in 3) by a panic: the same detach
+    for sc in out:
+        r2 = random.Random(sc["seed"])
+        for c in sc["ctls"]:
+            c["unwind"] = r2.random() < 0.33
     return out
 
 
